@@ -98,6 +98,13 @@ func c18AfterGC(r *histRunner, bid, begin, end int, merge bool, before *gcBefore
 			return fmt.Errorf("file %s holds a record of unknown key %q after GC", h.file, h.rec.Key)
 		}
 		m := r.model[k]
+		if h.rec.Ver < 0 && begin > 0 && m.State == stDeleted && !before.treeHad[k] {
+			// the documented reservation envelope: a pass that does not start at file 0 keeps every tombstone the tree does
+			// not hold (it cannot know whether an older value survives below the range) - also a superseded one
+			tombKept = true
+			r.label("tombstone_reserved")
+			continue
+		}
 		if prev, dup := seen[string(h.rec.Key)]; dup {
 			return fmt.Errorf("key %q has two records in the collected range after GC [%d,%d] (%s and %s@%d): a superseded version survived", h.rec.Key, begin, end, prev, h.file, h.rec.Offset)
 		}
